@@ -145,6 +145,14 @@ def override_order_rule(ck, P):
         for o in overs:
             n_over += 1
             rh = ir.local_hid(o["recv"])
+            # an override on the converting wrapper itself is, by construction, after the wrapping
+            rt = (ir.strip(o["recv"]).get("t") or "")
+            init = next((y["init"] for y in order if y.get("k") == "let" and y["pat"].get("k") == "bind" and y["pat"]["hid"] == rh and "init" in y), None)
+            wo = [x for x in P.bodies if x["q"].endswith("TilesReaderTrait>::override_compression") and "TilesConvertReader" in x["q"]]
+            forwards_only = not wo or not any(y.get("k") == "assign" and ir.place_str(y["l"]).endswith("tile_recompressor") for y in ir.walk_nodes(wo[0]["body"]))
+            if forwards_only and ("TilesConvertReader" in rt or (init is not None and ir.contains(init, lambda z: z.get("k") == "call" and (z.get("q") or "").endswith("TilesConvertReader::new_from_reader")))):
+                bad.append("%s: override_compression at %s is applied to the converting wrapper, not to the reader it wraps" % (b["q"].rsplit("::", 2)[-2], ir.loc(o)))
+                continue
             for w in wraps:
                 same = any(z.get("k") == "path" and z.get("r") == "local" and z.get("hid") == rh for z in ir.walk_nodes(w))
                 # a wrap that feeds the overridden local, evaluated before the override, inside the same loop round / function
